@@ -144,7 +144,9 @@ def _fkey(f):
 
 
 def make_id_spec(spec):
-    if spec is None or isinstance(spec, (str, list)):
+    if isinstance(spec, list):
+        return [make_id_spec(x) if isinstance(x, dict) else x for x in spec]
+    if spec is None or isinstance(spec, str):
         return spec
     if isinstance(spec, dict) and "callable" in spec:
         name = spec["callable"]
